@@ -94,6 +94,56 @@ def lookupName (env : PyEnv) (st : PySt) (n : String) : Option Val :=
     else if n == "__old__" then env.old
     else none
 
+/-- the functions exposed to code (`active`, `after`, `idle`, `sent`, `received`, `send`, `notify`,
+    `setdefault`) and the few builtins of the subset -/
+def callFn (env : PyEnv) (st : PySt) (f : String) (args : List Val)
+    (kws : List (String × Val)) : Option Val × PySt :=
+  match f, args, kws with
+  | "active", [.str n], [] => (some (.bool (env.config.contains n)), st)
+  | "active", [_], [] => (some (.bool false), st)
+  | "after", [d], [] =>
+    (match env.entryT, d.asInt? with
+     | some (some t0), some d => (some (.bool (env.time - d ≥ t0)), st)
+     | _, _ => (none, st))
+  | "idle", [d], [] =>
+    (match env.idleT, d.asInt? with
+     | some (some t0), some d => (some (.bool (env.time - d ≥ t0)), st)
+     | _, _ => (none, st))
+  | "sent", [v], [] =>
+    (match env.sentNames, v with
+     | some ns, .str n => (some (.bool (ns.contains n)), st)
+     | some _, _ => (some (.bool false), st)
+     | none, _ => (none, st))
+  | "received", [v], [] =>
+    (match env.received with
+     | some r => (some (.bool (match v, r with
+                              | .str n, some m => n == m
+                              | .none, none => true
+                              | _, _ => false)), st)
+     | none => (none, st))
+  | "send", [.str n], kws =>
+    if env.canSend then (some .none, { st with sent := st.sent ++ [.internal { name := n, data := kws }] })
+    else (none, st)
+  | "notify", [.str n], kws =>
+    if env.canSend then (some .none, { st with sent := st.sent ++ [.notify { name := n, data := kws }] })
+    else (none, st)
+  | "setdefault", [.str n, v], [] =>
+    if env.canSend then
+      (match assocGet n st.vars with
+       | some x => (some x, st)
+       | none => (some v, { st with vars := st.vars ++ [(n, v)] }))
+    else (none, st)
+  | "abs", [v], [] => ((v.asInt?).map (fun i => Val.int (if i < 0 then -i else i)), st)
+  | "min", [a, b], [] =>
+    (match a.asInt?, b.asInt? with
+     | some x, some y => (some (if y < x then b else a), st)
+     | _, _ => (none, st))
+  | "max", [a, b], [] =>
+    (match a.asInt?, b.asInt? with
+     | some x, some y => (some (if y > x then b else a), st)
+     | _, _ => (none, st))
+  | _, _, _ => (none, { st with unsupported := true })
+
 mutual
 partial def evalExpr (env : PyEnv) (st : PySt) : Expr → Option Val × PySt
   | .const v => (some v, st)
@@ -183,53 +233,6 @@ partial def evalKw (env : PyEnv) (st : PySt) : List (String × Expr) → Option 
        | (none, st) => (none, st))
     | (none, st) => (none, st)
 
-partial def callFn (env : PyEnv) (st : PySt) (f : String) (args : List Val)
-    (kws : List (String × Val)) : Option Val × PySt :=
-  match f, args, kws with
-  | "active", [.str n], [] => (some (.bool (env.config.contains n)), st)
-  | "active", [_], [] => (some (.bool false), st)
-  | "after", [d], [] =>
-    (match env.entryT, d.asInt? with
-     | some (some t0), some d => (some (.bool (env.time - d ≥ t0)), st)
-     | _, _ => (none, st))
-  | "idle", [d], [] =>
-    (match env.idleT, d.asInt? with
-     | some (some t0), some d => (some (.bool (env.time - d ≥ t0)), st)
-     | _, _ => (none, st))
-  | "sent", [v], [] =>
-    (match env.sentNames, v with
-     | some ns, .str n => (some (.bool (ns.contains n)), st)
-     | some _, _ => (some (.bool false), st)
-     | none, _ => (none, st))
-  | "received", [v], [] =>
-    (match env.received with
-     | some r => (some (.bool (match v, r with
-                              | .str n, some m => n == m
-                              | .none, none => true
-                              | _, _ => false)), st)
-     | none => (none, st))
-  | "send", [.str n], kws =>
-    if env.canSend then (some .none, { st with sent := st.sent ++ [.internal { name := n, data := kws }] })
-    else (none, st)
-  | "notify", [.str n], kws =>
-    if env.canSend then (some .none, { st with sent := st.sent ++ [.notify { name := n, data := kws }] })
-    else (none, st)
-  | "setdefault", [.str n, v], [] =>
-    if env.canSend then
-      (match assocGet n st.vars with
-       | some x => (some x, st)
-       | none => (some v, { st with vars := st.vars ++ [(n, v)] }))
-    else (none, st)
-  | "abs", [v], [] => ((v.asInt?).map (fun i => Val.int (if i < 0 then -i else i)), st)
-  | "min", [a, b], [] =>
-    (match a.asInt?, b.asInt? with
-     | some x, some y => (some (if y < x then b else a), st)
-     | _, _ => (none, st))
-  | "max", [a, b], [] =>
-    (match a.asInt?, b.asInt? with
-     | some x, some y => (some (if y > x then b else a), st)
-     | _, _ => (none, st))
-  | _, _, _ => (none, { st with unsupported := true })
 end
 
 partial def execStmts (env : PyEnv) (st : PySt) : List Stmt → Bool × PySt
